@@ -14,7 +14,7 @@ RULE = ("(1) manifold certificate, complete per level for res 0..5 (quick) / 0..
         "for each of the 5 edges, the point 5% beyond the edge midpoint (3-D construction) belongs, by lonlat_to_cell, to a "
         "different cell whose segments=4 ring contains the same edge reversed, end points and the three interior points "
         "within 1e-4 L; points 0.4% beyond the edge at 3/12/88/97% along it go to that neighbour (or a cell containing them); the cell's centre is not inside that neighbour. One case = one cell (5 edges). Non-trivial = an edge "
-        "is shared across a face or segment boundary, or the cell is within 3 L of a pole/frame point; distinct by cell.")
+        "(3) corner sweep: points 0.1 % / 0.2 % inside each vertex of every cell of res 8 (thorough; every 8th cell quick) come back in a cell containing them. Non-trivial = an edge is shared across a face or segment boundary, or the cell is within 3 L of a pole/frame point; distinct by cell.")
 ASSUMPTIONS = ["for res>=8 the partition is sampled, not certified", "vertex coincidence tolerance 1e-6 L (measured 1e-12 L), edge point tolerance 1e-4 L + float floor"]
 REQUIRED_CLASSES = {"edge_across_face": ("hyp", 0.05), "near_frame_or_pole": ("hyp", 0.1)}
 
@@ -227,11 +227,75 @@ def stage_boundary(ctx):
     hyp_drive(ctx, strat, judge, 60 if ctx.tier == "quick" else 1200)
 
 
+SWEEP_RES = 8
+
+
+def stage_corner_sweep(ctx):
+    """The neighbourhood search of lonlat_to_cell has its hardest inputs in the extreme corners of cells, and how hard a
+    corner is depends on where the cell lies on its face (lattice orientation against the fixed search directions). From
+    resolution 7 on the construction is scale invariant, so one resolution's cells cover every position on every face:
+    all 983 040 cells of resolution 8 (thorough; every 8th, offset by the seed, quick), each with points 0.1 % and 0.2 %
+    of the vertex-centre distance inside each of its 5 vertices. The point must come back in a cell that contains it."""
+    a5 = _a5()
+    res = SWEEP_RES
+    per = 4 ** (res - 1)
+    stride = 8 if ctx.tier == "quick" else 1
+    fracs = (0.002,) if ctx.tier == "quick" else (0.001, 0.002)
+    off = ctx.seed % stride
+    n = probes = other = 0
+    for idx in range(ctx.shard + ctx.nshards * off, 60 * per, ctx.nshards * stride):
+        o, rem = divmod(idx, 5 * per)
+        seg, S = divmod(rem, per)
+        cell = refids.enc(res, o, seg, S)
+        case = {"cell": hex(cell), "corner_sweep": True}
+        centre = guarded(a5.cell_to_lonlat, cell, kind="cell_to_lonlat_raised", case=case)
+        ring = guarded(a5.cell_to_boundary, cell, {"segments": 1, "closed_ring": False}, kind="cell_to_boundary_raised", case=case)
+        for vi, q in enumerate(ring):
+            for f in fracs:
+                pt = refgeo.toward(q, centre, f)
+                got = guarded(a5.lonlat_to_cell, pt, res, kind="lonlat_to_cell_raised", case=case)
+                probes += 1
+                if got != cell:
+                    verdict, m = contains(pt, got, res)
+                    if verdict == "out":
+                        raise Violation("corner_point_given_to_cell_not_containing_it", {"cell": hex(cell), "corner_sweep": True, "vertex": vi, "f": f},
+                                        observed=f"{hex(got)} (outside by {-m:.3g} cell widths)", expected=f"{hex(cell)} or another cell containing the point")
+                    other += 1
+        n += 1
+    ctx.col.bulk(n, n, cls="corner_sweep", sample={"cell": hex(cell), "corner_sweep": True})
+    ctx.col.count("corner_sweep_probes", probes)
+    ctx.col.count("corner_sweep_other_cell_also_contains", other)
+    if stride == 1:
+        ctx.col.exhaustive[f"corner tips of all cells of res {res}"] = True
+
+
+def judge_corner(case, col):
+    a5 = _a5()
+    cell = int(case["cell"], 16)
+    res = refids.res_of(cell)
+    centre = guarded(a5.cell_to_lonlat, cell, kind="cell_to_lonlat_raised", case=case)
+    ring = guarded(a5.cell_to_boundary, cell, {"segments": 1, "closed_ring": False}, kind="cell_to_boundary_raised", case=case)
+    vs = [case["vertex"]] if "vertex" in case else range(len(ring))
+    for vi in vs:
+        for f in ([case["f"]] if "f" in case else (0.001, 0.002)):
+            pt = refgeo.toward(ring[vi], centre, f)
+            got = guarded(a5.lonlat_to_cell, pt, res, kind="lonlat_to_cell_raised", case=case)
+            if got != cell:
+                verdict, m = contains(pt, got, res)
+                if verdict == "out":
+                    raise Violation("corner_point_given_to_cell_not_containing_it", case, observed=f"{hex(got)} (outside by {-m:.3g} cell widths)",
+                                    expected=f"{hex(cell)} or another cell containing the point")
+    col.case(case, nontrivial=True, classes=["corner_sweep"])
+
+
 def plan(tier):
-    return [Stage("certificate", 8, stage_certificate, cost=10), Stage("hyp", 16, stage_hyp, cost=6), Stage("boundary", 16, stage_boundary, cost=4)]
+    return [Stage("certificate", 8, stage_certificate, cost=10), Stage("hyp", 16, stage_hyp, cost=6), Stage("boundary", 16, stage_boundary, cost=4),
+            Stage("corner_sweep", 16, stage_corner_sweep, cost=8)]
 
 
 def replay(rec, col):
     case = dict(rec["case"])
+    if case.get("corner_sweep"):
+        return judge_corner(case, col)
     case.pop("edge", None)
     judge(case, col)
